@@ -1,10 +1,10 @@
 #!/bin/sh
 # runs every registered check once on the current /repo; usage: tools/run_all.sh [tier] [seed]
 T="${1:-quick}"; S="${2:-0}"
-cd /verif
+cd "$(dirname "$0")/.."
 for i in $(seq -w 1 19); do
   c=C$i
-  /usr/bin/time -f "%e s" ./check $c --tier $T --seed $S > /tmp/runall_${c}_${T}_${S}.log 2>&1; rc=$?
-  v=$(grep -c "^VIOLATION" /tmp/runall_${c}_${T}_${S}.log); k=$(grep -c "^KNOWN-FINDING" /tmp/runall_${c}_${T}_${S}.log)
-  echo "$c tier=$T seed=$S exit=$rc violations=$v known=$k time=$(tail -1 /tmp/runall_${c}_${T}_${S}.log)"
+  /usr/bin/time -f "%e s" ./check $c --tier $T --seed $S > /tmp/runall_$$_${c}_${T}_${S}.log 2>&1; rc=$?
+  v=$(grep -c "^VIOLATION" /tmp/runall_$$_${c}_${T}_${S}.log); k=$(grep -c "^KNOWN-FINDING" /tmp/runall_$$_${c}_${T}_${S}.log)
+  echo "$c tier=$T seed=$S exit=$rc violations=$v known=$k time=$(tail -1 /tmp/runall_$$_${c}_${T}_${S}.log)"
 done
